@@ -46,6 +46,11 @@ def c15Str (args : List String) (impl : String) : String × String :=
         else if accepted && !isBase58Check s then
           (if onlyChecksumWrong then "false:address-with-wrong-checksum-accepted-for-building-scripts"
            else "false:malformed-address-accepted-for-building-scripts")
+        -- every well-formed address is the address of some key hash: it validates, decodes to that hash and builds
+        -- the canonical script
+        else if isBase58Check s && fieldD f "valid" != "1" then "false:well-formed-address-does-not-validate"
+        else if isBase58Check s && (fieldD f "new" != showEA hexEnc nw || fieldD f "p2pkh" != showEA hexEnc p2 ||
+            fieldD f "pay" != showEA hexEnc p2 || fieldD f "change" != "ok") then "false:well-formed-address-not-decoded-to-its-hash"
         else "true"
       (model, pred)
   | _ => ("bad-op", "n/a")
